@@ -1,29 +1,29 @@
 #!/bin/bash
 # tools/mutcheck.sh <patch.diff> <tier> <ID>...
 # Evaluate checks against a seeded fault WITHOUT touching /repo: the patch is applied to a scratch
-# worktree of /repo's HEAD (/tmp/mut/r), mcx is built against it through a cargo `paths` override,
+# worktree of /repo's HEAD ($M/r), mcx is built against it through a cargo `paths` override,
 # and the engines are run directly. Only for development; registered checks always use /repo.
 patch=$1; tier=$2; shift 2
-W=/tmp/mut/r
+M=${MUT:-/tmp/mut}; W=$M/r
 [ -d $W ] || git -C /repo worktree add -q --detach $W HEAD
 git -C $W checkout -q --detach $(git -C /repo rev-parse HEAD) 2>/dev/null
 git -C $W checkout -- . ; git -C $W clean -fdq
 git -C $W apply "$patch" || { echo "patch does not apply"; exit 2; }
 cd /verif/mc
-ov='paths=["/tmp/mut/r/cozy-chess","/tmp/mut/r/types"]'
-CARGO_TARGET_DIR=/tmp/mut/target cargo build --offline --profile chk -p mcx --config "$ov" >/tmp/mut/build.log 2>&1 || { echo "BUILD FAILED"; tail -20 /tmp/mut/build.log; git -C $W checkout -- .; exit 2; }
+ov='paths=["'"$M"'/r/cozy-chess","'"$M"'/r/types"]'
+CARGO_TARGET_DIR=$M/target cargo build --offline --profile chk -p mcx --config "$ov" >$M/build.log 2>&1 || { echo "BUILD FAILED"; tail -20 $M/build.log; git -C $W checkout -- .; exit 2; }
 need_rel=0; need_pext=0
 for id in "$@"; do case $id in C05|C19) need_rel=1;; esac; case $id in C01|C05) need_pext=1;; esac; done
-[ $need_rel = 1 ] && CARGO_TARGET_DIR=/tmp/mut/target-rel cargo build --offline --release -p mcx --config "$ov" >>/tmp/mut/build.log 2>&1
-[ $need_pext = 1 ] && CARGO_TARGET_DIR=/tmp/mut/target-pext RUSTFLAGS="-C target-feature=+bmi2" cargo build --offline --profile chk -p mcx --features pext --config "$ov" >>/tmp/mut/build.log 2>&1
+[ $need_rel = 1 ] && CARGO_TARGET_DIR=$M/target-rel cargo build --offline --release -p mcx --config "$ov" >>$M/build.log 2>&1
+[ $need_pext = 1 ] && CARGO_TARGET_DIR=$M/target-pext RUSTFLAGS="-C target-feature=+bmi2" cargo build --offline --profile chk -p mcx --features pext --config "$ov" >>$M/build.log 2>&1
 cd /verif
 for id in "$@"; do
   cfgs="mut-chk"
   case $id in C05|C19) cfgs="mut-chk mut-rel";; esac
   case $id in C01|C05) cfgs="$cfgs mut-pext";; esac
   for cfg in $cfgs; do
-    case $cfg in mut-chk) bin=/tmp/mut/target/chk/mcx;; mut-rel) bin=/tmp/mut/target-rel/release/mcx;; mut-pext) bin=/tmp/mut/target-pext/chk/mcx;; esac
-    out=$($bin run $id $tier --config $cfg --partial /tmp/mut/partial.json 2>/dev/null); rc=$?
+    case $cfg in mut-chk) bin=$M/target/chk/mcx;; mut-rel) bin=$M/target-rel/release/mcx;; mut-pext) bin=$M/target-pext/chk/mcx;; esac
+    out=$($bin run $id $tier --config $cfg --partial $M/partial.json 2>/dev/null); rc=$?
     echo "$id [$cfg] rc=$rc $(echo "$out" | grep -E '^(VIOLATION|MACHINERY)' | head -1 | cut -c1-80) | $(echo "$out" | grep -E '^  monitor=' | head -1 | cut -c1-240)"
   done
 done
